@@ -261,8 +261,9 @@ def run_sequence(sh, lab, cfg, ops, clocks, messages=None):
             sh.count("finishes")
     if kind == "plain":
         data = st.fetch()
-        lines = data.split("\n")
-        if lines != plain_frames and not (plain_frames == [] and lines == [""]):
+        # every frame stands on its own line; empty lines (a leading line break) are not frames
+        lines = [l for l in data.split("\n") if l.strip() != ""]
+        if lines != [l for f in plain_frames for l in f.split("\n") if l.strip() != ""]:
             sh.violate("plain-one-frame-per-line", record, "plain stream lines %r, frames drawn %r" % (lines, plain_frames))
             return False
     return nframes_total >= 2 and throttled_advances >= 1
